@@ -5,7 +5,7 @@
    closure and of the main loop's completion code enters through [tables]; the theorems hold for every
    table that passes the decidable check [tables_ok], and C20_every_path_releases evaluates that
    check on the paths regenerated from cmd/run.go on this run. *)
-From Coq Require Import List NArith Bool Arith.
+From Coq Require Import List NArith ZArith Bool Arith.
 From Dae Require Import C20_Spec C20_Model C20_Check C20_Proofs.
 From Dae.gen Require Import C20_ReloadPaths.
 Import ListNotations.
@@ -88,6 +88,36 @@ Theorem C20_no_wedge :
       (settled s' = true /\ pending s' = false /\ supp s' = 0 /\ active s' = false /\ reloading s' = false).
 Proof. exact C20_no_wedge_proof. Qed.
 Print Assumptions C20_no_wedge.
+
+(* Retirement terminates (the liveness step C20_no_wedge rests on): for every budget, every behaviour
+   of the old generation's sessions (they may never drain), every --abort/overlap combination and
+   every schedule, the drain budget handed to waitForControlPlaneDrain lies in [0, reloadTotalSwitchBudget],
+   the drain timer is always armed, its deadline is at most the budget away, and once the budget has
+   passed (the goroutine being scheduled) `done` is closed. *)
+Theorem C20_retirement_terminates :
+  forall (T : tables) (sched : list action) (d : nat) (r : retirement) (k : N), tables_ok T = true ->
+    let s := run T sched in
+    exited s = false -> nth_error (rets s) d = Some r ->
+    (0 <= rt_budget r <= Z.max 0 (t_budget_total T))%Z /\
+    rt_pc_of r <> RtWait None /\
+    (forall dl, rt_pc_of r = RtWait (Some dl) -> (dl <= now s + Z.to_N (rt_budget r))%N) /\
+    ((Z.to_N (rt_budget r) <= k)%N ->
+       let s' := run_from T s (retire_schedule d k) in
+       nth d (dones s') false = true /\ exited s' = false).
+Proof. exact C20_retirement_terminates_proof. Qed.
+Print Assumptions C20_retirement_terminates.
+
+(* ... hence the request whose release waits for that retirement is released and its muting scope
+   lifted. *)
+Theorem C20_retirement_releases :
+  forall (T : tables) (sched : list action) (x d : nat) (r : retirement) (k : N), tables_ok T = true ->
+    let s := run T sched in
+    exited s = false -> nth_error (releasers s) x = Some (RWait d) -> nth_error (rets s) d = Some r ->
+    (Z.to_N (rt_budget r) <= k)%N ->
+    let s' := run_from T s (retire_schedule d k ++ [AReleaser x; AReleaser x; AReleaser x; AReleaser x]) in
+    pending s' = false /\ nth_error (releasers s') x = Some (RRun []) /\ supp s' = mute_owed s'.
+Proof. exact C20_retirement_releases_proof. Qed.
+Print Assumptions C20_retirement_releases.
 
 (* The `default:` branch of the non-blocking send in tryQueueReloadRequest is dead: a thread that won
    the CAS always finds room in the channel. *)
